@@ -16,6 +16,8 @@ pub struct Adversary {
     cfg: Cfg,
     rng: Rng,
     client_addr: Option<String>,
+    /// the server's address (destination of the first datagram); the client may rebind, the server never does
+    server_addr: Option<String>,
     seen: Vec<Packet>,
     serial: u64,
     /// injections of datagrams that belong to no connection (`inject_kind`)
@@ -39,6 +41,7 @@ impl Adversary {
             cfg: cfg.clone(),
             rng: Rng(crate::cfg::mix(cfg.seed ^ 0xadad_adad)),
             client_addr: None,
+            server_addr: None,
             seen: vec![],
             serial: 0,
             stray_count: 0,
@@ -153,7 +156,10 @@ impl Network for Adversary {
             if self.client_addr.is_none() {
                 self.client_addr = Some(src.clone());
             }
-            let c2s = self.client_addr.as_deref() == Some(src.as_str());
+            if self.server_addr.is_none() {
+                self.server_addr = Some(dst.clone());
+            }
+            let c2s = self.client_addr.as_deref() == Some(src.as_str()) || self.server_addr.as_deref() == Some(dst.as_str());
             let len = packet.payload.len();
             let wire_head = self.cfg.wire_head;
             let head = |p: &[u8]| head_n(p, wire_head);
